@@ -158,7 +158,7 @@ func c05Gen(tier string, seed int64) []core.Case {
 			k++
 		}
 		if sc.proto == "ecdsa-keygen" || sc.proto == "ecdsa-resharing" {
-			for wi, weak := range []string{"dup-of-peer", "crossed-dup-of-peer", "h1=h2", "small-paillier", "small-ntilde"} {
+			for wi, weak := range []string{"dup-of-peer", "crossed-dup-of-peer", "h1=h2", "small-paillier", "small-ntilde", "large-ntilde", "large-paillier"} {
 				pos := poss[(k+wi)%3]
 				p := sc.P()
 				p["fpos"], p["weak"] = pos, weak
@@ -634,6 +634,41 @@ func weakPreParams(kind string, base, peer ecdsakeygen.LocalPreParams) (ecdsakey
 			return cp, err
 		}
 		cp.PaillierSK = sk
+		return cp, nil
+	case "large-ntilde", "large-paillier":
+		// 2304-bit moduli (the protocol's are 2048-bit) from ordinary primes congruent to 3 mod 4, with everything the
+		// honest prover needs to produce valid proofs for them
+		var ps [2]*big.Int
+		for i := range ps {
+			for {
+				c, err := rand.Prime(rand.Reader, 1152)
+				if err != nil {
+					return cp, err
+				}
+				if c.Bit(1) == 1 {
+					ps[i] = c
+					break
+				}
+			}
+		}
+		N := new(big.Int).Mul(ps[0], ps[1])
+		pm, qm := new(big.Int).Sub(ps[0], big1), new(big.Int).Sub(ps[1], big1)
+		if kind == "large-paillier" {
+			phi := new(big.Int).Mul(pm, qm)
+			lam := new(big.Int).Div(phi, new(big.Int).GCD(nil, nil, pm, qm))
+			cp.PaillierSK = &paillier.PrivateKey{PublicKey: paillier.PublicKey{N: N}, LambdaN: lam, PhiN: phi, P: ps[0], Q: ps[1]}
+			return cp, nil
+		}
+		p, q := new(big.Int).Rsh(pm, 1), new(big.Int).Rsh(qm, 1)
+		pq := new(big.Int).Mul(p, q)
+		f := common.GetRandomPositiveRelativelyPrimeInt(rand.Reader, N)
+		h1 := new(big.Int).Mod(new(big.Int).Mul(f, f), N)
+		var alpha, beta *big.Int
+		for beta == nil {
+			alpha = common.GetRandomPositiveRelativelyPrimeInt(rand.Reader, N)
+			beta = new(big.Int).ModInverse(alpha, pq)
+		}
+		cp.NTildei, cp.H1i, cp.H2i, cp.Alpha, cp.Beta, cp.P, cp.Q = N, h1, new(big.Int).Exp(h1, alpha, N), alpha, beta, p, q
 		return cp, nil
 	case "small-ntilde":
 		sg, err := common.GetRandomSafePrimesConcurrent(ctx, 512, 2, 8, rand.Reader)
